@@ -350,6 +350,11 @@ func execTxnObs(c *column.Collection, sch *Schema, live []bool, t TxnSpec, obs f
 					return errRollback
 				}
 			}
+			for _, ci := range t.Touch {
+				if live == nil || live[ci] {
+					_, _ = readCell(txn, column.Row{}, sch.Cols[ci], ReadTxnTyped)
+				}
+			}
 			return nil
 		})
 	}()
@@ -416,7 +421,7 @@ func execStep(txn *column.Txn, sch *Schema, live []bool, steps []Step, i int, re
 // execDirect runs a single-step transaction through the collection-level
 // convenience methods (Insert, QueryAt, DeleteAt, InsertKey, ...).
 func execDirect(c *column.Collection, sch *Schema, live []bool, t TxnSpec) ([]StepResult, error, bool) {
-	if len(t.Steps) != 1 || t.FailAt >= 0 || t.Steps[0].HasPeek || t.Steps[0].AlsoKey != "" {
+	if len(t.Steps) != 1 || t.FailAt >= 0 || t.Steps[0].HasPeek || t.Steps[0].AlsoKey != "" || len(t.Touch) > 0 {
 		return nil, nil, false
 	}
 	st := t.Steps[0]
